@@ -79,6 +79,10 @@ impl Sim {
     pub fn new_with(rng: &mut Rng, n: usize, policy: Policy, end_fail: Option<usize>, hostile: bool, big_bufreader: bool) -> Sim {
         let data = Rc::new(ident_data(n));
         let mut src = Src::new(data.clone(), policy, rng.next()).with_calls();
+        if !hostile && rng.chance(1, 10) {
+            // a long run of consecutive Interrupted results in front of one of the early reads
+            src = src.with_storm(1 + rng.below(12), *rng.pick(&[127u32, 128, 129, 256, 257, 1000]));
+        }
         if let Some(k) = end_fail {
             src = src.failing_at(k);
         } else if rng.chance(1, 6) && n > 0 {
@@ -454,7 +458,7 @@ impl Sim {
                 if judge_reads {
                     self.discipline(&calls, Some(k.saturating_add(1)), before_len, was_ended, false, &mut p);
                 }
-                let want = self.stream.get(self.cursor.wrapping_add(k)).copied();
+                let want = self.cursor.checked_add(k).and_then(|i| self.stream.get(i)).copied();
                 match (got, want) {
                     (Some(g), Some(w)) if g == w => {}
                     (None, None) => {
@@ -603,10 +607,21 @@ pub fn random_policy(rng: &mut Rng, n: usize) -> Policy {
     }
 }
 
+const HUGE: [usize; 6] = [
+    usize::MAX,
+    usize::MAX - 1,
+    usize::MAX / 2,
+    usize::MAX / 2 + 1,
+    1 << 62,
+    (1 << 32) + 1,
+];
+
 pub fn gen_op(rng: &mut Rng, sim: &Sim, hostile: bool) -> Op {
     let chunk = sim.chunk;
     let blen = sim.r.buf_len();
     let w = rng.below(100);
+    // an extreme request drains the source: only where that takes a bounded number of refills
+    let huge_ok = sim.data.len().saturating_sub(sim.cursor) / chunk.max(1) <= 20_000;
     match w {
         0..=17 => {
             let n = match rng.below(6) {
@@ -624,9 +639,15 @@ pub fn gen_op(rng: &mut Rng, sim: &Sim, hostile: bool) -> Op {
                 }
                 _ => 1 + rng.usize(300),
             };
+            if rng.chance(1, 120) && huge_ok {
+                // the extreme amounts: more than any source has; the reader has to drain the source and
+                // fall short, without arithmetic going wrong
+                return Op::Request(*rng.pick(&HUGE));
+            }
             Op::Request(n.min(chunk.saturating_mul(4096).min(1 << 21)))
         }
         18..=24 => Op::RequestByte,
+        25..=36 if rng.chance(1, 120) && huge_ok => Op::RequestByteAt(*rng.pick(&HUGE)),
         25..=36 => Op::RequestByteAt(
             match rng.below(4) {
                 0 => rng.usize(blen + 2),
@@ -761,6 +782,12 @@ impl Monitor for C02 {
             } else {
                 sim.step(&op)
             };
+            let mut pr = pr;
+            if self.only_discipline {
+                // the read discipline is judged from the source's own log; a history goes on after
+                // problems that belong to another property
+                pr.retain(|p| p.starts_with("[read-discipline]"));
+            }
             problems.extend(pr);
             ops_done += 1;
         }
